@@ -49,6 +49,10 @@ pub struct Case {
 	/// anchors only: the cheater lays its HTLC transaction out fee-input-first and gets it confirmed in
 	/// the *same* block as the revoked commitment (both are free choices of the cheater)
 	pub same_block_fee_first: bool,
+	/// once a second-stage transaction of the cheater is confirmed and the victim has answered it: everything
+	/// the victim has broadcast so far is lost (never relayed), and the tip - an empty block - is replaced
+	/// by another empty block; the victim's background task keeps calling `rebroadcast_pending_claims`
+	pub lossy: bool,
 }
 
 struct Snap {
@@ -349,6 +353,7 @@ pub fn run_case(c: &Case) -> Result<Option<Outcome>, (String, String)> {
 	// resolution: everybody sees every block, the cheater keeps trying too
 	let mut rounds = 0;
 	let mut jumped = false;
+	let mut lost_done = false;
 	loop {
 		rounds += 1;
 		if rounds > 400 {
@@ -356,11 +361,31 @@ pub fn run_case(c: &Case) -> Result<Option<Outcome>, (String, String)> {
 		}
 		w.sync_all();
 		w.handle_all_events(&[]);
+		if lost_done {
+			// the victim's BackgroundProcessor
+			w.nodes[0].mon.rebroadcast_pending_claims();
+			w.pump();
+		}
 		sync_shadow(&mut shadow, &w, &mut shadow_synced);
 		pump_shadow(&mut shadow, &mut w, &mut shadow_txs, &mut revoked_commitment);
 		let new_obs = w.new_obs();
 		if let Err(f) = validity.observe(&w, &new_obs) {
 			return Err((f.oracle, f.detail));
+		}
+		if c.lossy && !lost_done {
+			let second: Vec<bitcoin::Txid> = shadow_txs.iter().filter(|t| **t != rtx && w.chain.confirmed.contains_key(*t)).cloned().collect();
+			let answered = w.chain.mempool.iter().any(|t| !shadow_txs.contains(&t.compute_txid()) && t.input.iter().any(|i| second.contains(&i.previous_output.txid)));
+			if answered {
+				lost_done = true;
+				w.chain.mempool.retain(|t| shadow_txs.contains(&t.compute_txid()));
+				w.mine_empty(1);
+				w.sync_all();
+				w.handle_all_events(&[]);
+				w.chain.disconnect_tip();
+				w.chain.mine_with_salt(Vec::new(), 7).map_err(|e| viol("harness", format!("{:?}", e)))?;
+				crate::runner::witness("c06-victim-broadcasts-lost-and-tip-reorganised");
+				continue;
+			}
 		}
 		if !w.chain.minable(&|_| 0).is_empty() {
 			w.mine_mempool_block();
@@ -495,9 +520,12 @@ pub fn cases(tier: Tier) -> Vec<Case> {
 					if !th && h.len() == 3 && (delay, reload) == (2, 1) {
 						continue;
 					}
-					v.push(Case { ct, history: h.clone(), snapshot: snap, victim_delay: delay, reload, shadow_learns_preimages: learns, same_block_fee_first: false });
+					v.push(Case { ct, history: h.clone(), snapshot: snap, victim_delay: delay, reload, shadow_learns_preimages: learns, same_block_fee_first: false, lossy: false });
+					if learns && delay >= 1 && reload == 0 && h.iter().any(|o| matches!(o, HOp::AddAB | HOp::HugeAB | HOp::AddBA)) {
+						v.push(Case { ct, history: h.clone(), snapshot: snap, victim_delay: delay, reload, shadow_learns_preimages: learns, same_block_fee_first: false, lossy: true });
+					}
 					if ct == Ct::Anchors && learns && delay <= 1 && reload != 1 && h.iter().any(|o| matches!(o, HOp::AddAB | HOp::HugeAB)) && h.contains(&HOp::Claim) {
-						v.push(Case { ct, history: h.clone(), snapshot: snap, victim_delay: delay, reload, shadow_learns_preimages: learns, same_block_fee_first: true });
+						v.push(Case { ct, history: h.clone(), snapshot: snap, victim_delay: delay, reload, shadow_learns_preimages: learns, same_block_fee_first: true, lossy: false });
 					}
 				}
 			}
@@ -575,6 +603,9 @@ pub fn run(args: &Args) -> i32 {
 	ev.set("witnesses", json!(wit));
 	if capped == 0 && violations.is_empty() && (wit.get("c06-second-stage-in-the-same-block").copied().unwrap_or(0) == 0 || wit.get("c06-fee-input-first-htlc-tx-built").copied().unwrap_or(0) == 0) {
 		mc_common::cli::die("vacuity guard: no case confirmed a fee-input-first second-stage transaction in the block of the revoked commitment");
+	}
+	if capped == 0 && violations.is_empty() && wit.get("c06-victim-broadcasts-lost-and-tip-reorganised").copied().unwrap_or(0) == 0 {
+		mc_common::cli::die("vacuity guard: no lossy case reached the point where the victim had answered a confirmed second-stage transaction");
 	}
 	ev.assume("same-block cases (anchors): the cheater sees the block with its commitment privately, builds its HTLC transaction by hand (fee input first, re-signed with its own keys), and a competing block containing both is what the victim sees");
 	ev.assume("the cheater is a real LDK node restored from B's earlier durable state with its signer policy checks off; it broadcasts whatever the real code broadcasts for that state (commitment, HTLC-success with preimages it knows, later timeouts / to_local claims)");
